@@ -26,8 +26,7 @@ sys.setrecursionlimit(10000)
 
 # (refactoring id, property) -> reason why the check is allowed not to be silent (a refusal, exit 2, that is documented in DESIGN.md)
 EXPECTED: dict = {
-    ("C19_1", "C19"): "a change INSIDE docs.parse.find_title_and_description: the check mirrors that function in a replica pinned by a digest and refuses when it changes",
-    ("C19_2", "C19"): "a rewrite of docs.patch.patch_sympy_evaluate: same replica/digest refusal",
+    ("C19_2", "C19"): "a rewrite of docs.patch.patch_sympy_evaluate: the check mirrors that function (which rewrites module ASTs) in a replica pinned by anchors and refuses when it changes",
 }
 
 
